@@ -59,7 +59,8 @@ def case_strategy(draw):
     base.update({"size": size, "rkind": rk, "R": np.asarray(R, float).tolist(), "t": t.tolist(),
                  "how": draw(st.sampled_from(["fresh", "copy", "inplace"])),
                  "order": draw(st.sampled_from(["ref-first", "moved-first"])),
-                 "seed1": draw(gen.SEEDS), "seed2": draw(gen.SEEDS)})
+                 "seed1": draw(gen.SEEDS), "seed2": draw(gen.SEEDS),
+                 "rescale": draw(st.sampled_from([None, None, None, 0.3, 1.0, 1.6])) if size == "3+" else None})
     return base
 
 
@@ -80,6 +81,10 @@ def check(case):
     np.random.seed(case["seed1"])
     M = xc.make_map(ref, tgt, s)
     mpos = rpos @ R.T + t
+    if case.get("rescale") is not None:
+        # the public attribute is re-assigned on the live map: whichever value the library then uses, it has to use
+        # it for every later call alike (the comparisons below are between two calls)
+        M.scale_factor = case["rescale"]
     np.random.seed(case["seed2"])
     if case["how"] == "inplace":
         # the construction reference object itself is moved rigidly (in place) and mapped again
